@@ -6,13 +6,16 @@ package main
 
 import (
 	"bytes"
+	"encoding/base64"
 	"encoding/binary"
 	"encoding/hex"
 	"encoding/json"
+	"flag"
 	"fmt"
 	"image/color"
 	"image/png"
 	"os"
+	"os/exec"
 	"strings"
 
 	"github.com/janelia-flyem/dvid/datatype/imageblk"
@@ -191,12 +194,16 @@ func parseBlocks(body []byte) ([]string, bool) {
 
 var run *lib.Run
 
-func runHist(c jcase) {
+// histTerm runs one history on a fresh instance and returns its Coq term and distribution counters
+func histTerm(c jcase) (string, []string) {
+	var counts []string
+	count := func(k string) { counts = append(counts, k) }
 	open()
 	nInst++
 	name := fmt.Sprintf("img%d", nInst)
 	bpv := bpvOf[c.Type]
 	bs := c.BS
+	_ = run
 	cfgm := map[string]string{"BlockSize": fmt.Sprintf("%d,%d,%d", bs[0], bs[1], bs[2])}
 	if c.BG != 0 {
 		cfgm["Background"] = fmt.Sprint(c.BG)
@@ -249,7 +256,7 @@ func runHist(c jcase) {
 		if poisoned {
 			break
 		}
-		run.Count("op:" + o.Op)
+		count("op:" + o.Op)
 		switch o.Op {
 		case "postraw":
 			n := int(o.Size[0]) * int(o.Size[1]) * int(o.Size[2]) * int(bpv)
@@ -257,7 +264,7 @@ func runHist(c jcase) {
 			r := dv.Post(fmt.Sprintf("%s/raw/0_1_2/%d_%d_%d/%d_%d_%d%s", base, o.Size[0], o.Size[1], o.Size[2], o.Off[0], o.Off[1], o.Off[2], q(roiOf(o.Roi))), data)
 			terms = append(terms, fmt.Sprintf("OPostRaw %s %s %s %s %s", cpt(o.Off), cpt(o.Size), cpat(o.Pat[0], o.Pat[1], n), cspans(o.Roi), lib.CoqBool(r.Status == 200)))
 			if o.Roi != nil {
-				run.Count("write:roi")
+				count("write:roi")
 			}
 		case "getraw":
 			var url string
@@ -275,7 +282,7 @@ func runHist(c jcase) {
 				}
 				body = b
 			}
-			run.Count("read:" + o.Shape)
+			count("read:" + o.Shape)
 			terms = append(terms, fmt.Sprintf("OGetRaw %s %s %s", cgeom(o), cspans(o.Roi), resBytes(r, body, ok)))
 		case "postblocks":
 			n := int(bs[0]) * int(bs[1]) * int(bs[2]) * int(bpv) * int(o.Span)
@@ -288,7 +295,7 @@ func runHist(c jcase) {
 			terms = append(terms, fmt.Sprintf("OGetBlocks %s %d %s", cpt(o.Off), o.Span, resBytes(g, g.Body, g.Status == 200)))
 			if r.Status == 200 && !bytes.Equal(g.Body, data) {
 				poisoned = true
-				run.Count("postblocks:lost")
+				count("postblocks:lost")
 			}
 		case "getblocks":
 			r := dv.Get(fmt.Sprintf("%s/blocks/%d_%d_%d/%d", base, o.Off[0], o.Off[1], o.Off[2], o.Span))
@@ -355,10 +362,41 @@ func runHist(c jcase) {
 		}
 	}
 	term := fmt.Sprintf("(KHist (C %s %d %d) [\n    %s])", cpt(bs), bpv, c.BG, strings.Join(terms, ";\n    "))
-	run.Count("type:" + c.Type)
-	run.Count(fmt.Sprintf("background:%v", c.BG != 0))
-	run.Add("history", term, c, fmt.Sprintf("hist/%s/%v/%d/%d/%v", c.Type, bs, c.BG, len(c.Ops), c.Ops[0].Off))
+	count("type:" + c.Type)
+	count(fmt.Sprintf("background:%v", c.BG != 0))
+	return term, counts
 }
+
+// runHist runs the history in a child process: an index error inside a server goroutine cannot be
+// recovered and would otherwise take the whole run down; a crashed child is reported as KCrash.
+func runHist(c jcase) {
+	key := fmt.Sprintf("hist/%s/%v/%d/%d/%v", c.Type, c.BS, c.BG, len(c.Ops), c.Ops[0].Off)
+	f, err := os.CreateTemp("", "c17case*.json")
+	if err != nil {
+		fmt.Fprintln(os.Stderr, err)
+		os.Exit(2)
+	}
+	defer os.Remove(f.Name())
+	json.NewEncoder(f).Encode(c)
+	f.Close()
+	out, err := exec.Command(os.Args[0], "-child", f.Name(), "-outdir", os.TempDir()).Output()
+	var term string
+	for _, ln := range strings.Split(string(out), "\n") {
+		switch {
+		case strings.HasPrefix(ln, "TERM:"):
+			b, _ := base64.StdEncoding.DecodeString(ln[5:])
+			term = string(b)
+		case strings.HasPrefix(ln, "COUNT:"):
+			run.Count(ln[6:])
+		}
+	}
+	if err != nil || term == "" {
+		run.Count("history:server-crashed")
+		term = fmt.Sprintf("(KCrash (C %s %d %d))", cpt(c.BS), bpvOf[c.Type], c.BG)
+	}
+	run.Add("history", term, c, key)
+}
+
 
 func valuesFor(bpv int32) dvid.DataValues {
 	switch bpv {
@@ -557,8 +595,24 @@ func genXfer(rng *lib.Rand) jcase {
 		G: &jop{Shape: shape, Off: off, Size: size, Pat: []int32{int32(rng.Intn(251)), int32(1 + rng.Intn(250))}}}
 }
 
+var childCase = flag.String("child", "", "internal: run the history stored in this file and print its term")
+
 func main() {
 	o := lib.ParseOpts()
+	if *childCase != "" {
+		b, err := os.ReadFile(*childCase)
+		var c jcase
+		if err != nil || json.Unmarshal(b, &c) != nil {
+			os.Exit(2)
+		}
+		term, counts := histTerm(c)
+		dv.Close()
+		fmt.Println("TERM:" + base64.StdEncoding.EncodeToString([]byte(term)))
+		for _, k := range counts {
+			fmt.Println("COUNT:" + k)
+		}
+		return
+	}
 	rng := lib.NewRand(o.Seed)
 	run = lib.NewRun("C17", o)
 	run.Header("From Coq Require Import String.", "From DV Require Import Base.Prelude Model.Geometry Model.ROI Model.ImageBlk Model.ImageBlkRun.", "Local Open Scope Z_scope.")
@@ -583,6 +637,11 @@ func main() {
 	}
 	if o.N > 0 {
 		mul = o.N
+	}
+	// single blocks first: a misplaced index there is reported with its input (in a history it
+	// could panic inside a server goroutine and take the process down)
+	for i := 0; i < 40*mul; i++ {
+		dispatch(genXfer(rng))
 	}
 	// corpus: the three recorded defects, each as the shortest history that shows it
 	dispatch(jcase{Kind: "history", Type: "uint8blk", BS: []int32{4, 4, 4}, BG: 7, Ops: []jop{
@@ -610,9 +669,6 @@ func main() {
 	// a multi-byte instance with a non-zero Background: no property is claimed (the code has
 	// no single notion of background there), the model is still compared
 	dispatch(genHistory(rng, "uint16blk", []int32{4, 4, 2}, 5, false, false))
-	for i := 0; i < 40*mul; i++ {
-		dispatch(genXfer(rng))
-	}
 	run.Finish("c17case",
 		"one history per (voxel type x block size): block-aligned writes at negative and positive block coordinates (overlapping, ROI-restricted, block streams), reads of 3d boxes of any alignment and XY/XZ/YZ slices crossing block borders and leaving the written area, block streams and extents after each stage; single-block ReadBlock/WriteBlock for every shape, voxel width and padded strides; distinct by (kind, type, block size, background, geometry)",
 		tail)
